@@ -1,5 +1,6 @@
 """C16 — check configuration and MANIFEST entry."""
-CFG = {'assumptions': ['f64 inputs and outputs cross the boundary as bit patterns and are decoded to exact rationals; '
+CFG = {'scale_variants': False,   # coordinates are degrees of longitude / latitude
+ 'assumptions': ['f64 inputs and outputs cross the boundary as bit patterns and are decoded to exact rationals; '
                  'Rust f64 ops are IEEE-754',
                  'geographiclib-rs (Karney direct/inverse) is an engine parameter of the model: its accuracy is '
                  "observed through geo's API, not proved",
